@@ -402,14 +402,13 @@ impl Storage for MemStore {
                     entries.remove(&doc.id);
                 }
             });
-        self.metadata
-            .write()
-            .entry(keyspace.to_string())
-            .and_modify(|entries| {
-                for doc in docs {
-                    entries.insert(doc.id, (doc.last_updated, true));
-                }
-            });
+        // The tombstone marker must be recorded even if the keyspace (or the
+        // document) has never been seen before.
+        let mut lock = self.metadata.write();
+        let entries = lock.entry(keyspace.to_string()).or_default();
+        for doc in docs {
+            entries.insert(doc.id, (doc.last_updated, true));
+        }
 
         Ok(())
     }
